@@ -12,6 +12,7 @@ func init() {
 		lean:    []string{"JSight.Props.C06"},
 		exes:    []string{"jsight-ctx"},
 		run:     runC06,
+		assume:  []string{"the theorems are about the frame-stack model of the parent-pointer code; the equivalence is the tree correspondence", "directive attributes read by the resolution (kind, Path parameter, parenthesis) are delivered by the scanner as modelled under C14"},
 		rule:    "all sequences of the directive kinds (INCLUDE excluded) with '(' after any directive and ')' at any point up to the length bound, HTTP methods with and without a path, random sequences beyond it; each sequence is rendered with minimal valid parameters and bodies; non-trivial = at least one directive is placed by walking up at least one level or at least one context is closed; distinct = distinct token sequence",
 		trusted: []string{"the rendering of kind sequences to bytes (sequences the scanner refuses for lexical reasons are counted and skipped)"},
 	}
